@@ -43,6 +43,8 @@ class FnContract:
     consts: Dict[str, Any] = field(default_factory=dict)
     ghost: Dict[str, str] = field(default_factory=dict)       # ghost inputs (universally quantified)
     ghost_effects: Dict[str, int] = field(default_factory=dict)
+    case_split: Dict[str, str] = field(default_factory=dict)  # local -> clause assumed right after it is assigned: this contract
+    #                                                           instance covers that case only (the doc states which cases the instances cover)
     record_as: Optional[str] = None   # ghost call log name: callers' postconditions may use ncalls()/called_with()
     use_wf: bool = True            # class invariant is pre and post
     wf_pre: bool = True
